@@ -175,7 +175,8 @@ impl Story {
         // during main story evaluation.
         self.get_state_mut()
             .reset_output(Some(output_stream_before));
-        self.get_state().set_previous_pointer(previous_pointer_before);
+        self.get_state()
+            .set_previous_pointer(previous_pointer_before);
 
         // Finish evaluation, and see whether anything was produced
         self.get_state_mut()
